@@ -114,7 +114,9 @@ def run_case(case):
                                 "C05.instant/trigger")
     for k, name in [("same_instant_operands", "same-instant operands"), ("already_processed_operand", "already-processed operand"),
                     ("duplicate_operand", "same event twice in one tree"),
-                    ("partial_value", "value with unprocessed leaves missing")]:
+                    ("partial_value", "value with unprocessed leaves missing"),
+                    ("operands given as a lazy iterable", "operands given as a lazy iterable"),
+                    ("empty lazy iterable of operands", "empty lazy iterable of operands")]:
         if h.stats.get(k):
             classes.add(name)
     return {"nontrivial": bool(h.stats.get("nt")), "classes": sorted(classes)}
@@ -183,6 +185,7 @@ PROP = Property(
           "conditions mixing two environments must raise ValueError."),
     facets=[Facet("trees", strategy, run_case, quick=2500, thorough=15000,
                   essential=["same-instant operands", "already-processed operand", "operand fails first", "empty list",
+                             "operands given as a lazy iterable", "empty lazy iterable of operands",
                              "nested", "value with unprocessed leaves missing", "same event twice in one tree"]),
             Facet("foreign_env", foreign_strategy, run_foreign, quick=200, thorough=500)],
     assumptions=["instants, not steps, decide clause (a)", "an event may occur several times in one tree; it then counts once per "
